@@ -4,7 +4,7 @@
 part's mutation table (notes/<part>_mutations.md) as a sub-section."""
 import os, re
 ROOT = os.path.dirname(os.path.dirname(os.path.abspath(__file__)))
-ORDER = ["sink", "utf8", "driver", "par", "lpc", "rice", "parser"]
+ORDER = ["sink", "utf8", "readout", "driver", "par", "lpc", "floatskel", "rice", "parser"]
 out = []
 n = 13
 for part in ORDER:
@@ -12,7 +12,7 @@ for part in ORDER:
     if not os.path.exists(p):
         continue
     text = open(p).read().strip()
-    text = re.sub(r"^#+\s*10\.\d+\s*", f"### 10.{n} ", text, count=1, flags=re.M)
+    text = re.sub(r"^#+\s*10\.(\d+|x)\s*", f"### 10.{n} ", text, count=1, flags=re.M)
     if not text.startswith("### 10."):
         text = f"### 10.{n} Translator part `{part}`\n\n" + text
     # demote further headings inside the note below the section level
@@ -34,5 +34,7 @@ if b in d:
     d = d[:d.index(b)] + block + d[d.index(e) + len(e):]
 else:
     d = d.rstrip() + "\n\n" + block + "\n"
+d = re.sub(r"### 10\.\d+ Fourth build session", f"### 10.{n} Fourth build session", d)
+d = re.sub(r"Sections 10\.13-10\.\d+, each written together with its part", f"Sections 10.13-10.{n - 1}, each written together with its part", d)
 open(os.path.join(ROOT, "DESIGN.md"), "w").write(d)
 print("assembled", n - 13, "parts")
